@@ -535,6 +535,12 @@ def runInput (kind : String) (sched toks : List Nat) : String :=
   | "iter" =>
     let src := (List.range toks.length).zip toks |>.map fun (i, t) => (t, gapSpan i)
     renderObs (replay iterImpl sched () [{ rest := src, idx := 0, lastEnd := none }])
+  | "iterspan" =>
+    let src := (List.range toks.length).zip toks |>.map fun (i, t) => (t, gapSpan i)
+    let e := toks.length * 3 + 1
+    let c0 : IterCursor := { rest := src, idx := 0, lastEnd := none }
+    String.join ((replayIterSpans (e, e) c0 sched [c0]).map fun (l, t, s1, s0, s2) =>
+      s!" {l}:{match t with | some t => toString t | none => "-"}@{s1.1}-{s1.2}@{s0.1}-{s0.2}@{s2.1}-{s2.2}")
   | other => s!" ERR unknown-kind-{other}"
 
 /-! ### nested inputs (C16):  NG <id> <ek> <gap> <mode> <fuel> T <ngroups> (<gid> <n> kids..)* G <ngram> I <inputspec> -/
@@ -594,6 +600,9 @@ partial def loop (inp out : IO.FS.Stream) : IO Unit := do
   if line.isEmpty then return ()
   let toks := (line.trimAscii.toString.splitOn " ").filter (· != "")
   if toks.isEmpty then loop inp out else
+  -- `!<id> …`: a harness-only form (an equivalent formulation the model has no constructor for); its observation is
+  -- compared with that of the model-known equivalent `<id>` by the check
+  if (toks.head?.getD "").startsWith "!" then loop inp out else
   if toks.head? == some "PR" then
     match (prattCase.run toks.tail) with
     | .ok ((c, atom, ops, isRec), _) =>
